@@ -165,9 +165,11 @@ def keyHashAfter (hash : Value → Nat) (addr : Lbl → Nat) : Value → Nat
   | .link 6 _ o => if o = 0 then 0 else addr o
   | k => hash k
 
-/-- `array[key]` finds the loaded entry: the bucket it was filed in is the bucket the look-up searches -/
-def foundAfterLoad (hash : Value → Nat) (addr : Lbl → Nat) (tableLength : Nat) (k : Value) : Bool :=
-  keyHashAtLoad hash k % tableLength == keyHashAfter hash addr k % tableLength
+/-- `array[key]` finds the loaded entry: the bucket it was filed in is the bucket the look-up searches.
+    `refiled`: the holder files its entries again once the archive is closed (`Gen.Archive.arrayRefiled`, read from
+    `ScriptArrayHolder::Archive`) -/
+def foundAfterLoad (refiled : Bool) (hash : Value → Nat) (addr : Lbl → Nat) (tableLength : Nat) (k : Value) : Bool :=
+  refiled || keyHashAtLoad hash k % tableLength == keyHashAfter hash addr k % tableLength
 
 /-- the entry loop of `con::set<ScriptVariable, ScriptVariable>::Archive`: `NewEntry()` (key and value variable),
     `Key().ArchiveInternal`, `Value().ArchiveInternal`, then the key is hashed -/
